@@ -1,17 +1,18 @@
 #!/usr/bin/env python3
 """seed_sweep.py [names...] : for every seeded change apply it to /repo, run the quick check(s) that should notice it,
 undo it, and write seeded/<name>/detect.json (which check reported VIOLATION / inconclusive / nothing)."""
-import json, subprocess, sys, time
+import json, os, subprocess, sys, time
 from pathlib import Path
 SEEDED = Path("/verif/seeded")
-ALSO = {"C02-m2": ["C13"], "C04-m1": ["C08"], "C04-m2": ["C08"], "C08-m1": ["C04"], "C10-m1": ["C11"]}
+REPO = os.environ.get("VT_REPO", "/repo")  # a scratch worktree of /repo at the same commit may stand in while /repo is busy
+ALSO = {"C03-m3": ["C15"], "C03-m4": ["C09"], "C04-m4": ["C18"], "C02-m2": ["C13"], "C04-m1": ["C08"], "C04-m2": ["C08"], "C08-m1": ["C04"], "C10-m1": ["C11"]}
 names = sys.argv[1:] or sorted(p.name for p in SEEDED.iterdir() if p.is_dir())
 for name in names:
     d = SEEDED / name
     prop = name.split("-")[0]
     checks = [prop] + ALSO.get(name, [])
-    assert not subprocess.run(["git", "-C", "/repo", "status", "--porcelain", "--untracked-files=no"], capture_output=True, text=True).stdout.strip(), "/repo dirty"
-    r = subprocess.run(["git", "-C", "/repo", "apply", str(d / "patch.diff")], capture_output=True, text=True)
+    assert not subprocess.run(["git", "-C", REPO, "status", "--porcelain", "--untracked-files=no"], capture_output=True, text=True).stdout.strip(), "/repo dirty"
+    r = subprocess.run(["git", "-C", REPO, "apply", str(d / "patch.diff")], capture_output=True, text=True)
     if r.returncode:
         print(name, "PATCH DOES NOT APPLY"); continue
     out = {}
@@ -23,6 +24,6 @@ for name in names:
             out[c] = dict(exit=p.returncode, detected=(p.returncode == 1 and any(l.startswith("VIOLATION") for l in lines)),
                           first=[l[:300] for l in lines[:2]], wall_s=round(time.time() - t, 1))
     finally:
-        subprocess.run(["git", "-C", "/repo", "checkout", "--", "."])
+        subprocess.run(["git", "-C", REPO, "checkout", "--", "."])
     (d / "detect.json").write_text(json.dumps(out, indent=1) + "\n")
     print(name, {c: ("DETECTED" if v["detected"] else f"exit={v['exit']}") for c, v in out.items()}, flush=True)
